@@ -2,7 +2,7 @@
    length is rejected by the loader, and at which stage.  Holds for every specification file
    (any word sizes, any data), hence for every file the writer produces. *)
 From Coq Require Import ZArith List Bool Lia.
-From Catii Require Import Base.Cases Indx.Bytes Indx.Layout Indx.Save Indx.Load Indx.RoundTrip.
+From Catii Require Import Base.Cases Indx.Bytes Indx.BytesFacts Indx.Layout Indx.Save Indx.Load Indx.RoundTrip.
 Import ListNotations.
 Open Scope Z_scope.
 
